@@ -1,7 +1,7 @@
 (* C15/MatAlg.v : algebra of the list matrices of Base/Mat.v over a commutative (semi)ring given by
    Section hypotheses.  Most laws hold unconditionally because [] behaves as a zero vector /
    matrix of any shape; the identity laws need well-shaped matrices. *)
-From Coq Require Import List Arith Bool Lia.
+From Coq Require Import List Arith Bool Lia Sorted.
 From QV Require Import Base.Mat C15.MatDefs.
 Import ListNotations.
 
@@ -626,19 +626,26 @@ Section Alg.
     = sel22 a b c d x y * mget K M i j.
   Proof.
     intros HM Hi Hj. pose proof (wf_nth_length _ _ M i HM Hi) as Lr. destruct HM as [LM FM].
-    unfold kron. cbn [flat_map]. rewrite app_nil_r. unfold mget.
-    assert (R : forall ra, nth i (map (fun rb => krow K ra rb) M) [] = krow K ra (nth i M [])).
+    unfold kron. cbn [flat_map]. rewrite app_nil_r. unfold mget. unfold mat, vec in *.
+    assert (R : forall ra : list T, nth i (map (fun rb : list T => krow K ra rb) M) (@nil T) = krow K ra (nth i M (@nil T))).
     { intros ra. rewrite <- (krow_nil_r ra) at 1. apply (map_nth (fun rb => krow K ra rb)). }
-    assert (C : forall u v r, length r = (2 ^ k)%nat ->
+    assert (C : forall u v (r : list T), length r = (2 ^ k)%nat ->
                nth ((if y then 2 ^ k else 0%nat) + j) (krow K [u; v] r) 0 = (if y then v else u) * nth j r 0).
     { intros u v r Hr. cbn [krow]. rewrite app_nil_r. destruct y.
       - rewrite app_nth2 by (rewrite vscale_length; lia). rewrite vscale_length.
         replace (2 ^ k + j - length r)%nat with j by lia. apply nth_vscale.
       - rewrite app_nth1 by (rewrite vscale_length; lia). apply nth_vscale. }
+    assert (LA : forall ra : list T, length (map (fun rb : list T => krow K ra rb) M) = (2 ^ k)%nat)
+      by (intros; rewrite map_length; exact LM).
     destruct x.
-    - rewrite app_nth2 by (rewrite map_length; lia). rewrite map_length.
-      replace (2 ^ k + i - length M)%nat with i by lia. rewrite R, C by assumption. now destruct y.
-    - rewrite app_nth1 by (rewrite map_length; lia). cbn [Nat.add]. rewrite R, C by assumption. now destruct y.
+    - etransitivity; [apply f_equal2; [|reflexivity]; apply app_nth2; rewrite map_length; unfold mat, vec in *; lia|].
+      rewrite map_length. replace (2 ^ k + i - length M)%nat with i by (unfold mat, vec in *; lia).
+      etransitivity; [apply f_equal2; [|reflexivity]; apply (R [c; d])|].
+      rewrite C by exact Lr. now destruct y.
+    - cbn [Nat.add].
+      etransitivity; [apply f_equal2; [|reflexivity]; apply app_nth1; rewrite map_length; unfold mat, vec in *; lia|].
+      etransitivity; [apply f_equal2; [|reflexivity]; apply (R [a; b])|].
+      rewrite C by exact Lr. now destruct y.
   Qed.
 
   Lemma existsb_shift0 i qs : existsb (Nat.eqb (S i)) (0%nat :: map S qs) = existsb (Nat.eqb i) qs.
@@ -652,6 +659,9 @@ Section Alg.
   Lemma sel_length qs r : length (sel qs r) = length qs.
   Proof. apply map_length. Qed.
 
+  Lemma sel_cons0 qs x r : sel (0%nat :: map S qs) (x :: r) = x :: sel qs r.
+  Proof. unfold sel. cbn [map nth]. f_equal. rewrite map_map. reflexivity. Qed.
+
   Lemma embed_S_cons n qs a b c d M :
     wfm (2 ^ length qs) (2 ^ length qs) M ->
     embed K (S n) (0%nat :: map S qs) (kron K [[a; b]; [c; d]] M) = kron K [[a; b]; [c; d]] (embed K n qs M).
@@ -660,8 +670,7 @@ Section Alg.
     assert (E : forall x y r' c',
        entry (0%nat :: map S qs) (kron K [[a; b]; [c; d]] M) (x :: r') (y :: c') = sel22 a b c d x y * entry qs M r' c').
     { intros x y r' c'. unfold entry, agree_off. cbn [agree_off_from existsb Nat.eqb orb andb].
-      rewrite agree_off_from_shift0. unfold sel at 1 2. cbn [map nth]. fold (sel (map S qs) (x :: r')).
-      fold (sel (map S qs) (y :: c')). rewrite !sel_shift.
+      rewrite agree_off_from_shift0, !sel_cons0.
       destruct (agree_off_from 0 qs r' c'); [|now rewrite mul_0_r].
       rewrite !idx_cons, !sel_length. apply mget_kron22; [exact HM| |];
         (eapply Nat.lt_le_trans; [apply idx_lt|rewrite sel_length; apply Nat.le_refl]). }
@@ -694,24 +703,30 @@ Section Alg.
   Lemma map_S_pred l : Forall (fun q => (0 < q)%nat) l -> l = map S (map pred l).
   Proof. induction 1 as [|q l Hq Hl IH]; cbn [map]; [reflexivity|]. rewrite <- IH. f_equal. lia. Qed.
 
+  Lemma sorted_map_pred l : Forall (fun q => (0 < q)%nat) l -> StronglySorted lt l ->
+    StronglySorted lt (map pred l).
+  Proof.
+    intros Hl Hs. induction Hs as [|x l Hsl IHs Hx]; cbn [map]; constructor.
+    - inversion Hl; subst. now apply IHs.
+    - inversion Hl as [|? ? Hx0 Hl']; subst. apply Forall_forall. intros y Hy.
+      apply in_map_iff in Hy as (z & <- & Hz).
+      rewrite Forall_forall in Hx, Hl'. specialize (Hx z Hz). specialize (Hl' z Hz). lia.
+  Qed.
+
   (* a Kronecker product of 2x2 matrices placed on an ascending list of qubits *)
   Theorem embed_spread n : forall qs g,
-    Sorted.StronglySorted lt qs -> Forall (fun q => (q < n)%nat) qs -> (forall j, wfm 2 2 (g j)) ->
+    StronglySorted lt qs -> Forall (fun q => (q < n)%nat) qs -> (forall j, wfm 2 2 (g j)) ->
     embed K n qs (kronr (map g qs)) = mk K n (fun j => if memb j qs then g j else I2 K).
   Proof.
     induction n as [|n IH]; intros qs g Hs Hb Hg.
     - destruct qs as [|q qs]; [|inversion Hb; lia]. cbn. now rewrite mul_1_r || reflexivity.
     - assert (Hpos : forall l, Forall (fun q => (0 < q)%nat) l ->
-                Sorted.StronglySorted lt l -> Forall (fun q => (q < S n)%nat) l ->
+                StronglySorted lt l -> Forall (fun q => (q < S n)%nat) l ->
                 embed K (S n) l (kronr (map g l)) =
                 kron K (I2 K) (mk K n (fun j => if memb j (map pred l) then g (S j) else I2 K))).
-      { intros l Hl Hsl Hbl. rewrite (map_S_pred l Hl) at 1 2. rewrite map_map, embed_S_shift. f_equal.
-        rewrite <- (map_map pred (fun q => g (S q))). apply (IH (map pred l) (fun q => g (S q))).
-        - clear Hbl. induction Hsl as [|x l Hsl IHs Hx]; cbn [map]; constructor.
-          + inversion Hl; subst. now apply IHs.
-          + inversion Hl as [|? ? Hx0 Hl']; subst. apply Forall_forall. intros y Hy.
-            apply in_map_iff in Hy as (z & <- & Hz).
-            rewrite Forall_forall in Hx, Hl'. specialize (Hx z Hz). specialize (Hl' z Hz). lia.
+      { intros l Hl Hsl Hbl. rewrite (map_S_pred l Hl) at 1 2. rewrite (map_map S g), embed_S_shift. f_equal.
+        apply (IH (map pred l) (fun q => g (S q))).
+        - now apply sorted_map_pred.
         - apply Forall_forall. intros y Hy. apply in_map_iff in Hy as (z & <- & Hz).
           rewrite Forall_forall in Hbl, Hl. specialize (Hbl z Hz). specialize (Hl z Hz). lia.
         - intros j. apply Hg. }
@@ -724,18 +739,16 @@ Section Alg.
         destruct (Hg 0%nat) as [L0 F0].
         destruct (g 0%nat) as [|[|a [|b [|? ?]]] [|[|c [|d [|? ?]]] [|? ?]]] eqn:G0; cbn in L0; try lia;
           try (exfalso; inversion F0 as [|? ? E1 F1]; try inversion F1 as [|? ? E2 F2]; cbn in *; lia).
-        rewrite (map_S_pred rest Hl) at 1 2. rewrite map_map.
+        rewrite (map_S_pred rest Hl) at 1 2. rewrite (map_map S g).
         rewrite embed_S_cons.
         * unfold mk. cbn [mkfrom memb Nat.eqb orb]. rewrite G0. f_equal.
-          rewrite mkfrom_shift. rewrite <- (map_map pred (fun q => g (S q))).
+          rewrite mkfrom_shift.
           rewrite (IH (map pred rest) (fun q => g (S q))).
           -- unfold mk. apply mkfrom_ext. intros j _. cbn [memb Nat.eqb orb].
-             rewrite (map_S_pred rest Hl) at 2. now rewrite memb_map_S.
-          -- clear Hb' Hx. induction Hs' as [|x l Hsl IHs Hx]; cbn [map]; constructor.
-             ++ inversion Hl; subst. now apply IHs.
-             ++ inversion Hl as [|? ? Hx0 Hl']; subst. apply Forall_forall. intros y Hy.
-                apply in_map_iff in Hy as (z & <- & Hz).
-                rewrite Forall_forall in Hx, Hl'. specialize (Hx z Hz). specialize (Hl' z Hz). lia.
+             assert (Mj : memb (S j) rest = memb j (map pred rest))
+               by (rewrite (map_S_pred _ Hl) at 1; apply memb_map_S).
+             now rewrite Mj.
+          -- now apply sorted_map_pred.
           -- apply Forall_forall. intros y Hy. apply in_map_iff in Hy as (z & <- & Hz).
              rewrite Forall_forall in Hb', Hl. specialize (Hb' z Hz). specialize (Hl z Hz). lia.
           -- intros j. apply Hg.
@@ -745,7 +758,9 @@ Section Alg.
         { inversion Hs as [|? ? _ Hx]; subst. constructor; [lia|].
           apply Forall_forall. intros y Hy. rewrite Forall_forall in Hx. specialize (Hx y Hy). lia. }
         rewrite Hpos by assumption. unfold mk. cbn [mkfrom]. rewrite mkfrom_shift.
-        rewrite (map_S_pred _ Hl) at 2. rewrite memb_0_map_S. f_equal.
-        apply mkfrom_ext. intros j _. rewrite (map_S_pred _ Hl) at 2. now rewrite memb_map_S.
+        assert (M0 : memb 0%nat (S q :: rest) = false) by (rewrite (map_S_pred _ Hl); apply memb_0_map_S).
+        assert (Mj : forall j, memb (S j) (S q :: rest) = memb j (map pred (S q :: rest)))
+          by (intros j; rewrite (map_S_pred _ Hl) at 1; apply memb_map_S).
+        rewrite M0. f_equal. apply mkfrom_ext. intros j _. now rewrite Mj.
   Qed.
 End Alg.
